@@ -170,7 +170,7 @@ def _apply_model(model, op, o):
                     return
 
 
-def _invariants(model, db, u):
+def _invariants(model, db, u, names=True):
     if len(db.tables) != len(model.tables) or any(a is not b for a, b in zip(db.tables, model.tables)):
         return 'db.tables differs from the tables added and not deleted (order or membership)'
     if [t for t in db] != list(db.tables) or any(db[i] is not t for i, t in enumerate(model.tables)):
@@ -189,7 +189,7 @@ def _invariants(model, db, u):
             if o.alias:
                 keys.add(o.alias)
     keys.update(('public.a', 'public.b', 'public.z', 's.a', 's.c', 's.x', 'x', 'public.d', 'nope'))
-    for key in sorted(keys):
+    for key in (sorted(keys) if names else ()):
         exp = model.lookup(key)
         try:
             got = db[key]
@@ -266,7 +266,15 @@ def history(menu, D, first=-1):
                         return ''
                     return 'operation escaped with an exception other than the validation error'
                 if region_active('c09_rename_contained_table') and renamed_contained:
-                    return ''
+                    # the open finding concerns the NAME INDEX only (stale keys): name-based rules and deletions of tables are not
+                    # judged any more, identity-based ones still are (the same object can never be contained twice)
+                    if op[1][0] == 'T':
+                        if verb.startswith('add') and model.has(model.tables, o):
+                            must = True
+                        elif verb.startswith('add'):
+                            must = None
+                        else:
+                            return ''
                 if ok:
                     if must is True:
                         return 'an operation that must be rejected was accepted'
@@ -278,10 +286,8 @@ def history(menu, D, first=-1):
                         return 'a legal operation was rejected'
                     if _snapshot(db, u) != before:
                         return 'a rejected operation left a trace in the database'
-            if region_active('c09_rename_contained_table') and renamed_contained:
-                return ''
             reached()
-            bad = _invariants(model, db, u)
+            bad = _invariants(model, db, u, names=not (region_active('c09_rename_contained_table') and renamed_contained))
             if bad:
                 return bad
         return ''
